@@ -646,12 +646,38 @@ func sizeOfBasic(b *types.Basic) int {
 func c03Truth(r *Run, npkg, dpkg *packages.Package) {
 	r.curRule = "C03-TRUTH"
 	info := npkg.TypesInfo
-	asBool, _ := dpkg.Types.Scope().Lookup("AsBool").(*types.TypeName)
+	// the truthiness interface of package data, found by role: the interface whose only method is
+	// `() (bool, error)` (data.AsBool today)
+	var asBool *types.TypeName
+	for _, name := range dpkg.Types.Scope().Names() {
+		tn, ok := dpkg.Types.Scope().Lookup(name).(*types.TypeName)
+		if !ok {
+			continue
+		}
+		it, ok := tn.Type().Underlying().(*types.Interface)
+		if !ok || it.NumMethods() != 1 {
+			continue
+		}
+		sig := it.Method(0).Type().(*types.Signature)
+		if sig.Params().Len() != 0 || sig.Results().Len() != 2 {
+			continue
+		}
+		b, ok := sig.Results().At(0).Type().Underlying().(*types.Basic)
+		if !ok || b.Kind() != types.Bool || !isErrorType(sig.Results().At(1).Type()) {
+			continue
+		}
+		if asBool != nil {
+			r.fail("two interfaces of package data convert to (bool, error): %s and %s; the truthiness interface is ambiguous", asBool.Name(), tn.Name())
+			return
+		}
+		asBool = tn
+	}
 	if asBool == nil {
-		r.fail("anchor not found: data.AsBool")
+		r.fail("anchor not found: no interface of package data has the single method () (bool, error) (data.AsBool)")
 		return
 	}
 	asBoolIface := asBool.Type().Underlying().(*types.Interface)
+	asBoolMethod := asBoolIface.Method(0).Name()
 	// boolean-context nodes: (type, field holding the condition)
 	contexts := []struct{ typ, field, what string }{
 		{"IfStatement", "Condition", "if"},
@@ -689,7 +715,7 @@ func c03Truth(r *Run, npkg, dpkg *packages.Package) {
 			if !ok {
 				return true
 			}
-			if cal.Name() == "AsBool" {
+			if cal.Name() == asBoolMethod {
 				if sig, ok := cal.Type().(*types.Signature); ok && sig.Recv() != nil {
 					rt := sig.Recv().Type()
 					if types.Identical(rt.Underlying(), asBoolIface) || types.Implements(rt, asBoolIface) {
@@ -825,4 +851,8 @@ func callsGetValueOn(info *types.Info, body ast.Node, o types.Object) bool {
 		return !found
 	})
 	return found
+}
+
+func isErrorType(t types.Type) bool {
+	return types.Identical(t, types.Universe.Lookup("error").Type())
 }
